@@ -381,7 +381,7 @@ PROBE_NAMES = ['va', 'vb', 'xo', 'fo', 'xi', 'xk', 'xm', 'la', 'lb', 'td',
                'ct', 'cf', 'ft', 'ff', 'fa',
                # outer names that merely end like a sequence variable
                'content-length', 'page-number', 'my-item', 'doc-key',
-               'row-index', 'x-even', 'q-roman', 'tab-start', 'sequence-foo',
+               'row-index', 'x-even', 'q-roman', 'tab-start',
                'a-size', 'b-batches']
 
 
@@ -505,18 +505,30 @@ def run_shard(shard):
         combos = [[shard['outer']]] + [[shard['outer'], b] for b in kinds]
         if shard['triples']:
             combos += [[shard['outer'], b, c] for b in kinds for c in kinds]
+        total_n, unspec_n = [0], [0]
         for k, names in enumerate(combos):
             for sx in ('dtml', 'ssi', 'epfs'):
                 for abort in (None, 'raise', 'return'):
                     case = ['nesting', names, sx, k % 5] + (
                         [abort] if abort else [])
                     bad = run_nesting(case)
-                    acc.case(case, True, klass='nesting-depth-%d%s' % (
-                        len(names), '-' + abort if abort else ''),
-                        distinct_by_construction=True)
+                    total_n[0] += 1
+                    if bad == 'unspecified':
+                        unspec_n[0] += 1
+                    acc.case(case, bad != 'unspecified',
+                             klass='nesting-depth-%d%s%s' % (
+                                 len(names), '-' + abort if abort else '',
+                                 ':unspecified' if bad == 'unspecified'
+                                 else ''),
+                             distinct_by_construction=True)
                     if bad and bad != 'unspecified':
                         acc.fail(bad[0].replace('scoping', 'nesting'), case,
                                  bad[1])
+        if unspec_n[0] * 10 > total_n[0]:
+            # anti-vacuity: the reference interpreter gave up on more than
+            # a tenth of the enumerated nestings - a harness problem
+            raise RuntimeError('%d of %d enumerated nestings are '
+                               'unspecified' % (unspec_n[0], total_n[0]))
     elif shard['kind'] == 'underscore':
         for where in ['client', 'client-tuple', 'kw', 'vars', 'mapping',
                       'ctor_kw', 'ctor_map']:
